@@ -18,8 +18,7 @@
 #include "interfaceMakerPython.h"
 #include "interrogate_interface.h"
 #include "cppStructType.h"
-
-class FunctionRemap;
+#include "functionRemap.h"
 
 /**
  * An InterfaceMaker for generating complex Python function wrappers around
@@ -133,7 +132,7 @@ private:
     WrapperType _wrapper_type;
     int _min_version = 0;
     std::string _wrapper_name;
-    std::set<FunctionRemap*> _remaps;
+    FunctionRemapSet _remaps;
     bool _keep_method;
   };
 
@@ -156,11 +155,11 @@ private:
                                bool exclusive_fastcall = false);
   void write_coerce_constructor(std::ostream &out, Object *obj, bool is_const);
 
-  int collapse_default_remaps(std::map<int, std::set<FunctionRemap *> > &map_sets,
+  int collapse_default_remaps(std::map<int, FunctionRemapSet> &map_sets,
                               int max_required_args);
 
   bool write_function_forset(std::ostream &out,
-                             const std::set<FunctionRemap*> &remaps,
+                             const FunctionRemapSet &remaps,
                              int min_num_args, int max_num_args,
                              std::string &expected_params, int indent_level,
                              bool coercion_allowed, bool report_errors,
